@@ -2,7 +2,7 @@
 //! operation mix and every operation argument. Generation needs no execution state because
 //! operations address entities indirectly.
 
-use crate::gen_r7 as g;
+use crate::g;
 use crate::ops::*;
 use serde::{Deserialize, Serialize};
 use simcore::rng::Rng;
